@@ -144,7 +144,10 @@ void Log::log(const String& cat, Log::Level level, const String& message)
 	if (_usefile && TextFile(logfile).size() > ASL_LOG_MAX_SIZE)
 	{
 		Path   path = logfile;
-		String oldfile = path.noExt() + "-1." + path.extension();
+		String ext = path.extension();
+		String oldfile = path.noExt().string() + "-1"; // "log-1.log"; a name without extension gets no trailing '.'
+		if (ext.ok())
+			oldfile << '.' << ext;
 		if (File(oldfile).exists())
 			Directory::remove(oldfile);
 		Directory::move(logfile, oldfile);
